@@ -189,10 +189,10 @@ def _exit_rule(ctx, facts, fid):
             cl_ = counted_loop(fn, loop)
             if cl_ is not None and cl_.get("guard") is not None:
                 counted[id(loop)] = cl_
-                own_guard |= {tuple(x) for x in nf.atoms(cl_["guard"], True)}
+                own_guard |= {repr(x) for x in nf.atoms(cl_["guard"], True)}
 
     def _own(conds_):
-        return [c_ for c_ in conds_ if tuple(c_) not in own_guard]
+        return [c_ for c_ in conds_ if repr(c_) not in own_guard]
     # (a) exits of every user loop
     for loop in [n for n in t.nodes if n["k"] == "Loop"]:
         for (kind, node) in loop_exits(fn, loop):
